@@ -42,6 +42,8 @@ type replayFile struct {
 	Stubs   []json.RawMessage `json:"stubs"`
 	Clock   []string          `json:"clock"` // harness clock readings, ns since 0001-01-01 UTC
 	RandInts []string         `json:"randints"` // results of crypto/rand.Int, in call order
+	Endpoints []endpointRec   `json:"endpoints"`
+	Schedule []int            `json:"schedule"` // thread ids in the order they were given the baton at lock operations
 }
 
 var (
@@ -471,7 +473,11 @@ func Now() time.Time {
 
 // AdvanceClock moves the harness clock to a later (or equal) arbitrary instant.
 func AdvanceClock() {
-	Now()
+	load()
+	if clockIdx < 0 {
+		clockIdx = 0 // the first reading
+		return
+	}
 	clockIdx++
 }
 
@@ -638,3 +644,11 @@ func Intn(n int) int {
 // kind "val" or "err", outs in the order of the stub's outputs.  Natively a no-op: the symbolic run
 // logs what the stub returned, scripted or not, and the replay pops that log.
 func ScriptStub(short, kind string, outs ...interface{}) {}
+
+// Par runs the closures as concurrent threads.  Under gosym every interleaving at the lock
+// operations is explored; natively the recorded schedule is followed (see Yield).
+func Par(fs ...func()) { runPar(fs) }
+
+// GhostCount: the size of a ghost log of the symbolic run (e.g. "dials": connection attempts).  Ghost
+// state has no native counterpart: 0 natively (an assertion over it is decided symbolically only).
+func GhostCount(key string) int { return 0 }
